@@ -152,6 +152,9 @@ def realise(v):
         return {'T': True, 'F': False, 'N': None, 'E': []}[t]
     if t in ('[', ']'):
         return t
+    if t == 'fn':      # completion message as a function of the server
+        ret = v['ret']
+        return lambda server: realise(ret)
     if t == 'x':
         return {'dict': {}, 'tuple': (1, 2), 'set': set(), 'complex': 1j, 'intlist': [1, 2],
                 'listlist': [[1]], 'object': object()}[v.get('py', 'object')]
@@ -173,6 +176,8 @@ def normalise(v):
         return dict(v, args=[normalise(a) for a in v['args']])
     if t == 'B':
         return dict(v, el=[normalise(e) for e in v['el']])
+    if t == 'fn':
+        return {'t': 'fn', 'ret': normalise(v['ret'])}
     if t == 'f' and 'd' in v:
         x = struct.unpack('>d', bytes(v['d']))[0]
         try:
